@@ -110,16 +110,44 @@ fn li(v: &Value) -> usize {
 }
 
 /// An extension value that names nobody: the model's "absent" is concretised in several ways.
-fn put_ext(h: &mut RtpHeader, id: u8, other_id: u8, val: Option<&str>, rng: &mut Rng) {
+fn put_ext(els: &mut Vec<(u8, Vec<u8>)>, id: u8, other_id: u8, val: Option<&str>, rng: &mut Rng) {
+    let mut set = |id: u8, d: &[u8]| {
+        els.retain(|(i, _)| *i != id);
+        els.push((id, d.to_vec()));
+    };
     match val {
-        Some(s) => h.set_extension(id, s.as_bytes()).unwrap(),
+        Some(s) => set(id, s.as_bytes()),
         None => match rng.below(4) {
-            0 => {}                                                 // no such element
-            1 => h.set_extension(id, &[0xff, 0xfe]).unwrap(),       // not UTF-8
-            2 => h.set_extension(id, b"zz-nobody").unwrap(),        // a name nobody registered
-            _ => h.set_extension(other_id, b"x").unwrap(),          // some unrelated extension only
+            0 => {}                          // no such element
+            1 => set(id, &[0xff, 0xfe]),     // not UTF-8
+            2 => set(id, b"zz-nobody"),      // a name nobody registered
+            _ => set(other_id, b"x"),        // some unrelated extension only
         },
     }
+}
+
+/// RFC 8285 header-extension block, one-byte (0xBEDE) or two-byte (0x1000) form, padded to 32 bits.
+fn ext_block(els: &[(u8, Vec<u8>)], two_byte: bool, rng: &mut Rng) -> Option<RtpHeaderExtension> {
+    if els.is_empty() {
+        return None;
+    }
+    let mut d = Vec::new();
+    for (id, v) in els {
+        if two_byte {
+            d.push(*id);
+            d.push(v.len() as u8);
+        } else {
+            d.push((*id << 4) | (v.len() as u8 - 1));
+        }
+        d.extend_from_slice(v);
+        if rng.below(4) == 0 {
+            d.push(0); // padding byte between elements is legal
+        }
+    }
+    while d.len() % 4 != 0 {
+        d.push(0);
+    }
+    Some(RtpHeaderExtension::new(if two_byte { 0x1000 } else { 0xBEDE }, d))
 }
 
 async fn apply(w: &mut World, act: &Value, rng: &mut Rng) -> Option<(u32, u16)> {
@@ -177,13 +205,16 @@ async fn apply(w: &mut World, act: &Value, rng: &mut Rng) -> Option<(u32, u16)> 
             let (rid_id, mid_id, other) = (w.c.rid_id, w.c.mid_id, w.c.other_id);
             let rid_s = if rid > 0 { Some(w.c.rid[rid as usize - 1].clone()) } else { None };
             let mid_s = if mid > 0 { Some(w.c.mid[mid as usize - 1].clone()) } else { None };
+            let mut els: Vec<(u8, Vec<u8>)> = Vec::new();
             if rng.below(2) == 0 {
-                put_ext(&mut h, rid_id, other, rid_s.as_deref(), rng);
-                put_ext(&mut h, mid_id, other, mid_s.as_deref(), rng);
+                put_ext(&mut els, rid_id, other, rid_s.as_deref(), rng);
+                put_ext(&mut els, mid_id, other, mid_s.as_deref(), rng);
             } else {
-                put_ext(&mut h, mid_id, other, mid_s.as_deref(), rng);
-                put_ext(&mut h, rid_id, other, rid_s.as_deref(), rng);
+                put_ext(&mut els, mid_id, other, mid_s.as_deref(), rng);
+                put_ext(&mut els, rid_id, other, rid_s.as_deref(), rng);
             }
+            let two_byte = rng.below(3) == 0;
+            h.extension = ext_block(&els, two_byte, rng);
             let n = rng.below(40) as usize;
             let p = RtpPacket::new(h, rng.bytes(n));
             let mut buf = Vec::new();
